@@ -92,8 +92,6 @@ impl SimInit {
         if name.is_empty() {
             name = String::from("<unknown>");
         };
-        self.observers
-            .push((name.clone(), Box::new(mailbox.0.observer())));
         let scheduler = GlobalScheduler::new(self.scheduler_queue.clone(), self.time.reader());
 
         add_model(
@@ -104,6 +102,7 @@ impl SimInit {
             &self.executor,
             &self.abort_signal,
             &mut self.model_names,
+            &mut self.observers,
         );
 
         self
